@@ -12,6 +12,7 @@ use crate::vf::engine::*;
 use crate::vf::gen::*;
 use crate::vf::gen_app::*;
 use crate::vf::session::*;
+use crate::vf::shadow::{shadow_opt, with_shadow, Shadow};
 use crate::vf::sig::*;
 use crate::vf::sut::*;
 use crate::vf::util::*;
@@ -271,6 +272,10 @@ pub struct E2e {
     pub payload: Hex,
     /// what kind of payload this is ("valid:<proto>", "no-signature", "near-signature")
     pub kind: String,
+    /// sibling traffic before every frame (vf/shadow.rs): the same payload — or one cut short,
+    /// extended or with a bit flipped — in another datagram / on another connection first
+    #[serde(default)]
+    pub shadow: Option<Shadow>,
 }
 
 /// a string whose leading bytes complete no signature, built by walking the reference
@@ -307,6 +312,13 @@ fn no_signature_payload(sig_idx: usize, keep: usize, fill: &[u8], tail: &[u8]) -
 }
 
 pub fn e2e_strategy() -> impl Strategy<Value = E2e> {
+    (e2e_strategy0(), shadow_opt()).prop_map(|(mut c, sh)| {
+        c.shadow = sh;
+        c
+    })
+}
+
+fn e2e_strategy0() -> impl Strategy<Value = E2e> {
     let valid = (app_req(), any::<bool>()).prop_map(|(a, tcp)| (Hex(a.bytes(tcp)), format!("valid:{}", a.kind()), tcp));
     let nosig = (any::<usize>(), any::<usize>(), vec(any::<u8>(), 4), vec(any::<u8>(), 0..60), any::<bool>()).prop_map(|(s, k, f, t, tcp)| (Hex(no_signature_payload(s, k, &f, &t)), "no-signature".to_string(), tcp));
     // a complete valid request behind a short junk prefix (empty lines, NUL, blanks, random bytes):
@@ -356,8 +368,15 @@ pub fn e2e_strategy() -> impl Strategy<Value = E2e> {
         let dport = if std_port { Some(ports[pick(pi, ports.len())]) } else { None };
         (Hex(v), "look-alike".to_string(), tcp, dport)
     });
-    let plain = prop_oneof![3 => valid, 2 => nosig, 1 => prefixed].prop_map(|(p, k, t)| (p, k, t, None::<u16>));
-    (scenario_quiet(Fam::Any), port(), port(), prop_oneof![6 => plain, 1 => look]).prop_map(|(scn, sport, dport, (payload, kind, tcp, fixed_dport))| E2e { scn, sport, dport: fixed_dport.unwrap_or(dport), tcp, payload, kind })
+    // a complete request followed by further bytes in the same payload (for the signatures that are
+    // anchored at the end of the input the reference then says: nothing completes)
+    let trailed = (app_req(), any::<bool>(), prop_oneof![2 => vec(any::<u8>(), 1..4), 1 => vec(any::<u8>(), 4..40), 1 => Just(vec![0u8; 4])]).prop_map(|(a, tcp, tail)| {
+        let mut v = a.bytes(tcp);
+        v.extend_from_slice(&tail);
+        (Hex(v), "request-with-trailing-bytes".to_string(), tcp)
+    });
+    let plain = prop_oneof![6 => valid, 4 => nosig, 2 => prefixed, 1 => trailed].prop_map(|(p, k, t)| (p, k, t, None::<u16>));
+    (scenario_quiet(Fam::Any), port(), port(), prop_oneof![6 => plain, 1 => look]).prop_map(|(scn, sport, dport, (payload, kind, tcp, fixed_dport))| E2e { scn, sport, dport: fixed_dport.unwrap_or(dport), tcp, payload, kind, shadow: None })
 }
 
 fn expected_responder(kind: &str, tcp: bool) -> Option<Responder> {
@@ -373,6 +392,10 @@ fn expected_responder(kind: &str, tcp: bool) -> Option<Responder> {
 }
 
 pub fn e2e_check(c: &E2e, st: &mut Stats) -> Check {
+    with_shadow(&c.shadow, st, |st| e2e_check0(c, st))
+}
+
+fn e2e_check0(c: &E2e, st: &mut Stats) -> Check {
     Sut::reset();
     st.eval();
     let sut = Sut::new(&c.scn.cfg);
@@ -684,6 +707,14 @@ fn prefix_strategy() -> impl Strategy<Value = Hex> {
         if let Some((p, b)) = perturb {
             let k = pick(p, v.len());
             v[k] = b;
+        }
+        // bytes that start no signature, then a complete signature: the flow's leading bytes
+        // complete nothing, wherever the segments are cut
+        if fill[31] % 5 == 0 {
+            let junk = 1 + (fill[30] as usize % 12);
+            let mut w: Vec<u8> = fill[..junk].iter().map(|b| b"xyz~\x7f\x01 \n"[*b as usize % 8]).collect();
+            w.extend_from_slice(&v);
+            v = w;
         }
         Hex(v)
     })
